@@ -375,6 +375,15 @@ class Interp:
                 return True
             if not (poss & ts):
                 return False
+            if len(self.facts.signs) >= 2:
+                # what the affine facts of the path imply together (a < b, b < c settles a - c): exact Fourier-Motzkin
+                import lin
+                if lin.affine(p.e) is not None:
+                    poss = poss & lin.implied_signs(self.facts, p.e)
+                    if poss <= ts:
+                        return True
+                    if not (poss & ts):
+                        return False
             d = self.decide("%r %s 0" % (p.e, p.op))
             self.facts.refine(p.e, ts if d else (ALLSIGNS - ts))
             self.constraints.append((p.e, p.op, d))
@@ -770,6 +779,8 @@ class Interp:
         elems = None
         if isinstance(it, Tup):
             elems = it.items
+        if elems is not None and any(isinstance(x, GenList) for x in elems):
+            elems = None  # a list known through its generic element: one generic iteration below
         if elems is not None and len(elems) <= 16:
             broke = False
             for x in elems:
@@ -783,20 +794,31 @@ class Interp:
             if not broke:
                 self.exec_block(s.orelse, env)
             return
+        if isinstance(it, Tup) and it.kind != "dict" and len(it.items) == 1 and isinstance(it.items[0], GenList) and not self.loop_stack_uses(it.items[0].ivar):
+            # a list known through its generic element: the loop over its positions, the target bound to the generic element
+            g = it.items[0]
+            self.exec_range_loop(s, g.rng, env, index_target=None, elements=(), gen=g)
+            return
         before = dict(env)
         gen = Unknown("element of %s" % (ast.dump(s.iter)[:40],))
         if isinstance(it, Arr):
             gen = it.val
         self.assign(s.target, gen, env)
+        self.generic_depth = getattr(self, "generic_depth", 0) + 1
         try:
             self.exec_block(s.body, env)
         except _LoopCtl as c:
             raise AnalysisError("%s:%d: %s in a loop that is summarised by one generic iteration is not modelled" % (self.cur_mod.name, c.node.lineno, c.kind.lower()))
+        finally:
+            self.generic_depth -= 1
         for k, v in list(env.items()):
             if k in before and v is not before[k] and not isinstance(v, Arr):
                 env[k] = Unknown("loop-carried %s" % k)
 
-    def exec_range_loop(self, s, rng, env, index_target="target", elements=()):
+    def loop_stack_uses(self, ivar):
+        return any(L.ivar is ivar for L in self.loop_stack)
+
+    def exec_range_loop(self, s, rng, env, index_target="target", elements=(), gen=None):
         if index_target == "target":
             index_target = s.target
             if not isinstance(s.target, ast.Name):
@@ -804,11 +826,13 @@ class Interp:
         idx_name = index_target.id if index_target is not None else "<index of loop at line %d>" % s.lineno
         self._loop_ids += 1
         L = LoopSummary(self._loop_ids, s, rng, self.cur_mod.name, self.cur_fn.name if self.cur_fn else "?")
-        ivar = alg._atom("sym", "i#%d" % L.id, (), pos=False, real=True, integer=True)
+        ivar = alg._atom("sym", "i#%d" % L.id, (), pos=False, real=True, integer=True) if gen is None else gen.ivar
         L.ivar = ivar
         i_expr = rng.start + alg.atom_expr(ivar) * rng.step
         assigned = _assigned_names(s.body)
         elem_names = {x.id for t, _ in elements for x in ast.walk(t) if isinstance(x, ast.Name)}
+        if gen is not None:
+            elem_names |= {x.id for x in ast.walk(s.target) if isinstance(x, ast.Name)}
         carried = [k for k in sorted(assigned) if k in env and k != idx_name and k not in elem_names]
         head = {}
         for k in carried:
@@ -839,6 +863,8 @@ class Interp:
         env[idx_name] = i_expr
         for tgt, arr in elements:
             self.assign(tgt, self.np.load(self, arr, [i_expr], s, env), env)
+        if gen is not None:
+            self.assign(s.target, gen.elem, env)
         self.loop_stack.append(L)
         try:
             self.exec_block(s.body, env)
@@ -1036,8 +1062,21 @@ class Interp:
         if isinstance(arr, Tup) and arr.kind == "dict":
             self._dict_store(arr, self.eval(target.slice, env), v, target)
             return
+        if isinstance(arr, Tup) and arr.kind == "list":
+            k = self.eval(target.slice, env)
+            c = k.as_const() if isinstance(k, Expr) else None
+            if c is not None and c.im == 0 and c.re.denominator == 1 and -len(arr.items) <= c.re < len(arr.items):
+                arr.items[int(c.re)] = v  # in place: every alias of the list sees it
+                return
+            unk = Unknown("%s: a list after a store at a position that is not a known integer" % base.id)
+            for kk in list(env):
+                if env[kk] is arr:
+                    env[kk] = unk
+            return
         if not isinstance(arr, Arr):
             self.event("unsupported", target, "store into %r" % (arr,))
+            if base.id in env:
+                env[base.id] = Unknown("%s after a store that is not modelled" % base.id)
             return
         if isinstance(arr, SymArr) or arr.meta.get("param"):
             self.event("param-mutation", target, "store into the caller's array %s" % (arr.meta.get("param") or arr.name))
@@ -1142,6 +1181,9 @@ class Interp:
         if self.loop_stack:
             # a dictionary filled inside a loop carries state from one iteration to the next
             self.event("loop-dict-store", target, (key, v, self.loop_stack[-1], id(arr)))
+        if getattr(self, "generic_depth", 0) and not self.loop_stack:
+            arr.items.append((Unknown("the keys stored in a loop that is followed for one generic element only"), Unknown("their values")))
+            return
         for i, (k, _) in enumerate(arr.items):
             if key_equal(k, key):
                 arr.items[i] = (key, v)
@@ -1766,6 +1808,12 @@ class Interp:
             return "<str>"
         if isinstance(a, Tup) and isinstance(b, Tup) and isinstance(op, ast.Add):
             return Tup(a.items + b.items, a.kind)
+        if isinstance(op, ast.Mult) and (isinstance(a, Tup) and a.kind in ("list", "tuple") and isinstance(b, Expr) or isinstance(b, Tup) and b.kind in ("list", "tuple") and isinstance(a, Expr)):
+            seq, cnt = (a, b) if isinstance(a, Tup) else (b, a)
+            c = cnt.as_const()
+            if c is not None and c.im == 0 and c.re.denominator == 1 and 0 <= c.re <= 64:
+                return Tup(list(seq.items) * int(c.re), seq.kind)  # sequence repetition
+            return Unknown("repetition of a sequence a symbolic number of times")
         if isinstance(a, bool):
             a = alg.const(int(a))
         if isinstance(b, bool):
